@@ -64,17 +64,17 @@ SPEC = {
                   "limit or the size), C04_bounded + C04_ledger_exact + C04_exact_at_quiescence (value = saturated sum "
                   "of initial value and the increments whose cell CAS succeeded <= increments begun; survivors that "
                   "returned have nothing pending, a killed process at most its last increment), "
-                  "C04_failures_classified (names non-empty: a call fails only for its own over-long name, in the "
+                  "C04_failures_classified (a call fails only for its own empty or over-long name, in the "
                   "stale-mapping class, or at the model's 4 GiB bound: the cycle guards, writeEntryAt's, extend's and "
-                  "the corrupt-limit tests never fire), C04_nonblocking (names non-empty: a potential depending only "
+                  "the corrupt-limit tests never fire), C04_nonblocking (a potential depending only "
                   "on the file and the process's own locals strictly decreases with each own step unless the call "
                   "completes, is raised by another process's step only if that step is a successful CAS and then by at "
                   "most 20 + 2*chain length; a process running alone from any reachable state finishes all its "
                   "calls), C04_oracle_accepts_reachable (the executable oracles run on the real bytes hold of every "
                   "reachable model file). REFUTED, with computed model witnesses replayed on the real code: "
                   "C04_survivor_failed_refuted and C04_survivor_failed_refuted_tries (known finding "
-                  "survivor-errcorrupt, both routes) and C04_empty_name_refuted (known "
-                  "finding empty-name). The model is tied to the code by lock-step differential execution after every "
+                  "survivor-errcorrupt, both routes). C04_empty_name_rejected: the empty name (finding empty-name of this "
+                  "check, fixed in /repo by 342cd17) fails with its own error before anything is written. The model is tied to the code by lock-step differential execution after every "
                   "atomic operation (see the suite rule).",
     "level_note": "Proved about the model, sampled for the code. Trusted: Coq kernel+VM, extraction (ExtrOcamlBasic), "
                   "OCaml glue, Go harness (scheduler and atomics shims, independent decoder, generators). The model "
@@ -87,8 +87,7 @@ SPEC = {
                   "finer interleavings where they are separate steps. File-system calls are assumed to succeed "
                   "(their own errors are outside C04). Offsets beyond 2^32 - pageSize are outside the model: a process "
                   "that would reserve there stops with FRange (uint32 wrap-around of a > 4 GiB counter file is not "
-                  "modelled). C04_failures_classified and C04_nonblocking need names to be non-empty (the empty name "
-                  "is the known finding empty-name). The nonblocking bound per foreign successful CAS depends on the "
+                  "modelled). The nonblocking bound per foreign successful CAS depends on the "
                   "chain length (a retry re-walks the chain); no bound on the number of foreign CASes is claimed "
                   "(lock-freedom, not wait-freedom). survivor_not_failed is REFUTED, not proved: a survivor can get "
                   "errCorrupt from the duplicate walk (FBeyond) or after ten remaps (FTries) because of what other "
@@ -102,9 +101,10 @@ SPEC = {
         "the regions beyond the allocation limit read as zero (new records start with value 0 and next 0); sampled "
         "by the raw scan of the harness after every step",
         "names are identified with numbers, the hash and the length of a name are arbitrary functions (bucket, "
-        "nlen); C04_failures_classified and C04_nonblocking assume every name has length >= 1",
+        "nlen)",
         "file offsets stay below 2^32 - pageSize (otherwise the model stops the reserving process: FRange)",
-        "init_ok: the initial file is well formed (possibly with abandoned regions of earlier, killed, runs); "
+        "init_ok: the initial file is well formed (in particular no linked or reserved record has an empty name; "
+        "possibly with abandoned regions of earlier, killed, runs); "
         "processes start by opening it",
     ],
     "trusted_base": [
